@@ -42,6 +42,14 @@ CLAIMS = {
          'the spec: unprivileged code cannot alter A/I/F/M, T/J/IT only on exception return, no illegal mode installed, '
          'NMFI, SCR.AW/FW.',
          'Partial: SPSR writes, the return instructions, hints and coprocessor gating are not yet theorems.'),
+ 'C13': ('MemA read/write proved for every address/size/value/configuration and every translation outcome (bytes at the '
+         'translated address, little-endian or byte-reversed by CPSR.E; alignment policy by version and SCTLR.A/U incl. legacy '
+         'align-down; alignment fault with DFSR/DFAR and no transfer); MemU proved to choose aligned access / alignment fault / '
+         'individual byte transfers exactly as specified; closed forms (value read, final memory) on a flat map incl. the byte loop '
+         'with address wrap; instruction fetch little-endian whatever CPSR.E; byte reversal involutive; store-then-load returns the '
+         'value stored.',
+         'Alignment-fault reporting is proved for PMSA (the VMSA data_abort path is C15 territory); the rotated LDR result of the '
+         'legacy mode belongs to the load instructions (C02).'),
  'C16': ('lookup, read, write, error cases, histories (induction over operation lists), shape invariant, byte frame and '
          'store/load proved for every device list, address, size and value.',
          'Device payloads are RAM only; bytearray/struct semantics are the Lib/Machine.v model.'),
